@@ -154,6 +154,8 @@ def restart_family(sc):
             if (f["idx"] + len(parts)) % 2 == 0:          # "unchanged settings": the configuration still names the original start time
                 b["warm"]["config_start"] = base["start"]
             b["outname"] = "out_%03d.nc" % (f["idx"] + 1)
+            if sc.get("dense_restart"):                    # the restarted run writes the dense layout: column = identifier (its files are no restart files)
+                b["layout"] = "dense"
             keep2 = os.path.join(keep, "chain")
             b["keep_output"] = keep2
             tb = run_e2e(b)
@@ -166,7 +168,7 @@ def restart_family(sc):
             feb = next((e for e in tb if e["ev"] == "files"), None)
             nrec2 = nrec + base["numrec"]
             pos = [k for k, g in enumerate(fe["files"]) if g["idx"] == f["idx"] + 1]
-            if (sc.get("chain", True) and n == 1 and feb and feb["files"] and len(feb["files"][0]["recs"]) == base["numrec"]
+            if (sc.get("chain", True) and not sc.get("dense_restart") and n == 1 and feb and feb["files"] and len(feb["files"][0]["recs"]) == base["numrec"]
                     and nrec2 <= len(outs) and pos and len(fe["files"][pos[0]]["recs"]) == base["numrec"]):
                 o2 = outs[nrec2 - 1]
                 rstep2, f2 = o2["step"], fe["files"][pos[0]]
